@@ -1,13 +1,16 @@
 #!/bin/bash
-# tools/tryseed.sh <patch.diff> <ID> [quick|thorough]  — apply a seeded change to /repo, run a check, undo the change.
+# tools/tryseed.sh <patch.diff> <ID> [quick|thorough]
+# Applies a seeded change to a scratch worktree of /repo (never to /repo itself), runs the check against
+# that copy with evidence and replay files redirected to a scratch directory, prints the verdict and the
+# replay files, and removes the worktree. Replay files are left in $VERIF_SEEDOUT (default /tmp/seedout).
 set -u
-patch="$1"; id="$2"; tier="${3:-quick}"
-if [ -n "$(git -C /repo status --porcelain)" ]; then echo "/repo not clean"; exit 3; fi
-git -C /repo apply "$patch" || { echo "patch does not apply"; exit 3; }
-ev=/verif/evidence/$id.json; bak=$(mktemp); [ -f "$ev" ] && cp "$ev" "$bak"
-# undo the change and put back the evidence file of the unchanged tree (a run on a changed tree is not evidence)
-trap 'git -C /repo checkout -- . ; git -C /repo clean -fdq; if [ -s "$bak" ]; then cp "$bak" "$ev"; else rm -f "$ev"; fi; rm -f "$bak"' EXIT
-VERIF_REPLAY_DIR=${VERIF_REPLAY_DIR:-} /verif/check "$id" "$tier"
+patch=$(realpath "$1"); id="$2"; tier="${3:-quick}"
+wt=$(mktemp -d /tmp/wt/try.XXXXXX); rmdir "$wt"
+git -C /repo worktree add -q --detach "$wt" HEAD || exit 3
+out=${VERIF_SEEDOUT:-/tmp/seedout}; mkdir -p "$out"
+trap 'git -C /repo worktree remove --force "$wt" 2>/dev/null' EXIT
+git -C "$wt" apply "$patch" || { echo "patch does not apply"; exit 3; }
+VERIF_REPO="$wt" VERIF_OUT="$out" /verif/check "$id" "$tier"
 rc=$?
-echo "tryseed: $patch on $id -> exit $rc"
+echo "tryseed: $patch on $id -> exit $rc (replays under $out/replays)"
 exit $rc
